@@ -120,6 +120,15 @@ type Policy struct {
 	Cache     int    `json:"cache"`      // LRU size, 0 = shipped
 	RestartAt []int  `json:"restart_at"` // stop+reopen after these block indexes
 	Reader    bool   `json:"reader"`     // slow disk + concurrent API reader: while the block's state commit waits at the stalled store, every state key and account the block changed is read through the read-write ledger (what the JSON-RPC / gRPC account and storage queries do)
+	ApiReader int    `json:"api_reader,omitempty"` // concurrent account-API reader at the yield points of the flush/commit path: chance (per mille) per yield point that a balance query (coreapi GetAccount: Ledger.Copy().GetOrCreateAccount) runs exactly there
+}
+
+// apiReader is the state of the concurrent account-API reader of one block (Policy.ApiReader).
+type apiReader struct {
+	rnd    *sim.Rand
+	permil int
+	addrs  []*types.Address
+	landed []string // "<site>#<statement>" of the yield points where the reader ran
 }
 
 type replica struct {
@@ -330,6 +339,27 @@ func (r *replica) executeWithReader(ev *pb.CommitEvent, watchdog time.Duration, 
 	case <-time.After(watchdog):
 		return nil, errWedged
 	}
+}
+
+// executeWithApiReader executes one block while a concurrent client of the account API queries balances: at every
+// yield point of processExecuteEvent / FlushDirtyData / Commit (between two statements, no lock held) the seeded
+// source decides whether the queries run exactly there. The queries are what coreapi's GetAccount does.
+func (r *replica) executeWithApiReader(ev *pb.CommitEvent, watchdog time.Duration, ar *apiReader) (*blockResult, error) {
+	hook := func(site string, idx int, recv interface{}) {
+		if recv != interface{}(r.lg.StateLedger) && recv != interface{}(r.exec) {
+			return // another replica's executor
+		}
+		if !ar.rnd.Chance(float64(ar.permil) / 1000) {
+			return
+		}
+		for _, a := range ar.addrs {
+			r.lg.Copy().GetOrCreateAccount(a).GetBalance()
+		}
+		ar.landed = append(ar.landed, fmt.Sprintf("%s#%d", site, idx))
+	}
+	ledger.VerifYieldHook, executor.VerifYieldHook = hook, hook
+	defer func() { ledger.VerifYieldHook, executor.VerifYieldHook = nil, nil }()
+	return r.execute(ev, watchdog)
 }
 
 // stateDump: ordered content of the state store without journal bookkeeping.
